@@ -694,6 +694,11 @@ where
 		len += 1
 	}
 
+	if len == 0 {
+		// An empty array is printed as `[`, `array_empty` spaces, `]`.
+		size = Size::Width(2 + options.array_empty);
+	}
+
 	let size = match size {
 		Size::Expanded => Size::Expanded,
 		Size::Width(width) => match options.array_limit {
@@ -753,6 +758,11 @@ where
 		));
 		size.add(value.pre_compute_size(options, sizes));
 		len += 1;
+	}
+
+	if len == 0 {
+		// An empty object is printed as `{`, `object_empty` spaces, `}`.
+		size = Size::Width(2 + options.object_empty);
 	}
 
 	let size = match size {
